@@ -250,7 +250,7 @@ func randScript(r *prng.R, o *ShapeOpts) []byte {
 	if o.ScriptLens != nil && r.Chance(1, 3) {
 		return r.Bytes(prng.Pick(r, o.ScriptLens))
 	}
-	switch r.Intn(6) {
+	switch r.Intn(8) {
 	case 0:
 		return []byte{}
 	case 1:
@@ -259,8 +259,52 @@ func randScript(r *prng.R, o *ShapeOpts) []byte {
 		return append([]byte{0x6a}, Push(r.Bytes(r.Intn(60)))...)
 	case 3:
 		return append([]byte{0x00, 0x6a}, Push(r.Bytes(r.Intn(60)))...)
+	case 4:
+		return StandardScript(r)
 	}
 	return r.Bytes(r.Intn(80))
+}
+
+// StandardScript draws an instance of one of the script templates the library
+// itself recognises (and may therefore treat specially anywhere a script
+// passes through): P2PKH inscription with and without OP_RETURN tail, P2PK,
+// P2SH, bare multisig, and a script that only begins like an inscription.
+func StandardScript(r *prng.R) []byte {
+	key := func() []byte {
+		if r.Chance(1, 3) {
+			return append([]byte{0x04}, r.Bytes(64)...)
+		}
+		return append([]byte{byte(2 + r.Intn(2))}, r.Bytes(32)...)
+	}
+	envelope := func() []byte {
+		ct := [][]byte{[]byte("text/plain"), []byte("image/png"), {}, []byte("application/json; charset=utf-8")}[r.Intn(4)]
+		s := append(P2PKH(r.Bytes(20)), 0x00, 0x63, 0x03, 'o', 'r', 'd', 0x51)
+		s = append(s, MinPush(ct)...)
+		s = append(s, 0x00)
+		s = append(s, MinPush(r.Bytes(r.Intn(90)))...)
+		return append(s, 0x68)
+	}
+	switch r.Intn(7) {
+	case 0:
+		return envelope()
+	case 1:
+		return append(append(envelope(), 0x6a), MinPush(r.Bytes(1+r.Intn(20)))...)
+	case 2:
+		return append(MinPush(key()), 0xac)
+	case 3:
+		return append(append([]byte{0xa9, 0x14}, r.Bytes(20)...), 0x87)
+	case 4:
+		n := 1 + r.Intn(3)
+		s := []byte{byte(0x50 + 1 + r.Intn(n))}
+		for i := 0; i < n; i++ {
+			s = append(s, MinPush(key())...)
+		}
+		return append(s, byte(0x50+n), 0xae)
+	case 5: // begins like an inscription, ends differently
+		e := envelope()
+		return e[:len(e)-1-r.Intn(4)]
+	}
+	return append(P2PKH(r.Bytes(20)), 0x00, 0x63, 0x03, 'o', 'r', 'd')
 }
 
 // RandShape draws a transaction shape.
